@@ -138,7 +138,7 @@ pub fn kf_shape(gq: &GenQuery, t: &LogicalTable, layout: &Layout) -> Vec<&'stati
         })
     };
     // ORDER BY <expression> while a partition is longer than batch_size: the sort sees one streamed batch.
-    if q.order_by.iter().any(|(e, _)| !matches!(e, Expr::Col(_))) && t.rows > layout.opts.batch_size {
+    if q.order_by.iter().any(|(e, _)| !matches!(e, Expr::Col(_))) && t.rows >= layout.opts.batch_size {
         out.push("KF-orderby-expr-streaming");
     }
     // several keys of which a leading one holds NULLs: the order inside the NULL group is lost when partitions merge
